@@ -121,3 +121,105 @@ MUTANTS = [
     {"name": "c02-error-after-headers-sends-terminator", "prop": "C02", "checks": ["C02"],
      "edits": [(AS, "                self.log.exception(\"Error handling request\")\n                try:", "                self.log.exception(\"Error handling request\")\n                try:\n                    resp.close()")]},
 ]
+
+MUTANTS += [
+    # ---- C05 -------------------------------------------------------------------------------
+    {"name": "c05-handle-error-reraises-limit", "prop": "C05", "checks": ["C05"],
+     "edits": [(BA, "            elif isinstance(exc, LimitRequestLine):\n                mesg = \"%s\" % str(exc)", "            elif isinstance(exc, LimitRequestLine):\n                raise exc")]},
+    {"name": "c05-sync-no-finally-close", "prop": "C05", "checks": ["C05"],
+     "edits": [(SY, "            self.handle_error(req, client, addr, e)\n        finally:\n            util.close(client)", "            self.handle_error(req, client, addr, e)\n            util.close(client)")]},
+    {"name": "c05-gthread-invalid-chunk-escapes", "prop": "C05", "checks": ["C05"],
+     "edits": [(GT, "            if e.errno not in (errno.EPIPE, errno.ECONNRESET, errno.ENOTCONN):\n                self.log.exception(\"Socket error processing request.\")\n            else:\n                if e.errno == errno.ECONNRESET:\n                    self.log.debug(\"Ignoring connection reset\")\n                elif e.errno == errno.ENOTCONN:\n                    self.log.debug(\"Ignoring socket not connected\")\n                else:\n                    self.log.debug(\"Ignoring connection epipe\")",
+                "            if e.errno not in (errno.EPIPE, errno.ECONNRESET, errno.ENOTCONN):\n                raise\n            else:\n                self.log.debug(\"Ignoring\")")]},
+    {"name": "c05-error-page-keepalive", "prop": "C05", "checks": ["C05"],
+     "edits": [(UT, "    HTTP/1.1 %s %s\\r\n    Connection: close\\r", "    HTTP/1.1 %s %s\\r\n    Connection: keep-alive\\r")]},
+    {"name": "c05-nomoredata-after-app-call", "prop": "C05", "checks": ["C05"],
+     "edits": [(M, "        if not data:\n            if stop:\n                raise StopIteration()\n            raise NoMoreData(buf.getvalue())", "        if not data:\n            if stop:\n                raise StopIteration()\n            return")]},
+    {"name": "c05-async-systemexit-on-bad-version", "prop": "C05", "checks": ["C05"],
+     "edits": [(M, "        if match is None:\n            raise InvalidHTTPVersion(bits[2])", "        if match is None:\n            raise SystemExit(3)")]},
+    # ---- C08 -------------------------------------------------------------------------------
+    {"name": "c08-no-allow-list-for-scheme", "prop": "C08", "checks": ["C08"],
+     "edits": [(M, "        elif ('*' in cfg.forwarded_allow_ips or\n              not isinstance(self.peer_addr, tuple)\n              or self.peer_addr[0] in cfg.forwarded_allow_ips):", "        elif True:")]},
+    {"name": "c08-proxy-no-access-check", "prop": "C08", "checks": ["C08"],
+     "edits": [(M, "        self.proxy_protocol_access_check()\n        self.parse_proxy_protocol(line)", "        self.parse_proxy_protocol(line)")]},
+    {"name": "c08-gthread-drops-proxy-info", "prop": "C08", "checks": ["C08"],
+     "edits": [(GT, "            else:\n                req.proxy_protocol_info = conn.proxy_protocol_info", "            else:\n                pass")]},
+    {"name": "c08-underscore-mapped-default", "prop": "C08", "checks": ["C08"],
+     "edits": [(M, "                elif self.cfg.header_map == \"drop\":\n                    # almost as if it never had been there\n                    # but still counts against resource limits\n                    continue", "                elif self.cfg.header_map == \"drop\":\n                    pass")]},
+    {"name": "c08-proxy-allow-substring-match", "prop": "C08", "checks": ["C08"],
+     "edits": [(M, "                self.peer_addr[0] not in self.cfg.proxy_allow_ips):", "                not any(self.peer_addr[0].startswith(a[:2]) for a in self.cfg.proxy_allow_ips)):")]},
+    {"name": "c08-async-proxy-only-second", "prop": "C08", "checks": ["C08"],
+     "edits": [(AS, "                        if req.proxy_protocol_info:\n                            proxy_protocol_info = req.proxy_protocol_info\n                        else:\n                            req.proxy_protocol_info = proxy_protocol_info", "                        if req.proxy_protocol_info:\n                            proxy_protocol_info = req.proxy_protocol_info\n                        elif parser.req_count == 2:\n                            req.proxy_protocol_info = proxy_protocol_info")]},
+    # ---- C09 -------------------------------------------------------------------------------
+    {"name": "c09-header-value-re-allows-lf", "prop": "C09", "checks": ["C09"],
+     "edits": [(W, "HEADER_VALUE_RE = re.compile(r'[ \\t\\x21-\\x7e\\x80-\\xff]*')", "HEADER_VALUE_RE = re.compile(r'[ \\t\\n\\x21-\\x7e\\x80-\\xff]*')")]},
+    {"name": "c09-value-match-not-fullmatch", "prop": "C09", "checks": ["C09"],
+     "edits": [(W, "            if not HEADER_VALUE_RE.fullmatch(value):", "            if not HEADER_VALUE_RE.match(value):")]},
+    {"name": "c09-hoppish-forwarded", "prop": "C09", "checks": ["C09"],
+     "edits": [(W, "                # ignore hopbyhop headers\n                continue", "                # ignore hopbyhop headers\n                pass")]},
+    {"name": "c09-status-unvalidated", "prop": "C09", "checks": ["C09"],
+     "edits": [(W, "        if isinstance(status, str) and not HEADER_VALUE_RE.fullmatch(status):", "        if False:")]},
+    {"name": "c09-name-token-match-prefix", "prop": "C09", "checks": ["C09"],
+     "edits": [(W, "            if not TOKEN_RE.fullmatch(name):\n                raise InvalidHeaderName('%r' % name)", "            if not TOKEN_RE.match(name):\n                raise InvalidHeaderName('%r' % name)")]},
+    # ---- C15 -------------------------------------------------------------------------------
+    {"name": "c15-unquote-utf8", "prop": "C15", "checks": ["C15"],
+     "edits": [(UT, "    if isinstance(string, str):\n        string = string.encode('latin-1')\n    return urllib.parse.unquote_to_bytes(string).decode('latin-1')", "    return urllib.parse.unquote(string, errors='replace')")]},
+    {"name": "c15-query-decoded", "prop": "C15", "checks": ["C15"],
+     "edits": [(W, "        \"QUERY_STRING\": req.query,", "        \"QUERY_STRING\": util.unquote_to_wsgi_str(req.query),")]},
+    {"name": "c15-join-semicolon", "prop": "C15", "checks": ["C15"],
+     "edits": [(W, "            hdr_value = \"%s,%s\" % (environ[key], hdr_value)", "            hdr_value = \"%s;%s\" % (environ[key], hdr_value)")]},
+    {"name": "c15-duplicate-overwrites", "prop": "C15", "checks": ["C15"],
+     "edits": [(W, "        if key in environ:\n            hdr_value = \"%s,%s\" % (environ[key], hdr_value)\n", "")]},
+    {"name": "c15-script-name-after-decoding", "prop": "C15", "checks": ["C15"],
+     "edits": [(W, "        path_info = path_info[len(script_name):]\n    environ['PATH_INFO'] = util.unquote_to_wsgi_str(path_info)", "        path_info = path_info[len(script_name) + 1:]\n    environ['PATH_INFO'] = util.unquote_to_wsgi_str(path_info)")]},
+    {"name": "c15-method-uppercased", "prop": "C15", "checks": ["C15"],
+     "edits": [(W, "        \"REQUEST_METHOD\": req.method,", "        \"REQUEST_METHOD\": req.method.replace('-', '_'),")]},
+    # ---- C19 -------------------------------------------------------------------------------
+    {"name": "c19-second-access-call-on-error-path", "prop": "C19", "checks": ["C19"],
+     "edits": [(SY, "            if resp.should_close():\n" if False else "                resp.close()\n            finally:\n                request_time = datetime.now() - request_start\n                self.log.access(resp, req, environ, request_time)", "                resp.close()\n                self.log.access(resp, req, environ, datetime.now() - request_start)\n            finally:\n                request_time = datetime.now() - request_start\n                self.log.access(resp, req, environ, request_time)")]},
+    {"name": "c19-sent-counts-arglen", "prop": "C19", "checks": ["C19"],
+     "edits": [(W, "        self.sent += tosend\n        util.write(self.sock, arg, self.chunked)", "        self.sent += arglen\n        util.write(self.sock, arg, self.chunked)")]},
+    {"name": "c19-no-crlf-escape", "prop": "C19", "checks": ["C19"],
+     "edits": [(GL, ".replace(\n                    '\\r', '\\\\r').replace('\\n', '\\\\n')", "")]},
+    {"name": "c19-sendfile-not-counted", "prop": "C19", "checks": ["C19"],
+     "edits": [(W, "            self.sent += sent or 0", "            pass")]},
+    {"name": "c19-gthread-logs-before-response", "prop": "C19", "checks": ["C19"],
+     "edits": [(GT, "            respiter = self.wsgi(environ, resp.start_response)\n            try:", "            respiter = self.wsgi(environ, resp.start_response)\n            self.log.access(resp, req, environ, datetime.now() - request_start)\n            try:")]},
+    {"name": "c19-status-from-first-start-response", "prop": "C19", "checks": ["C19"],
+     "edits": [(GL, "        status = resp.status\n        if isinstance(status, str):\n            status = status.split(None, 1)[0]", "        status = resp.status\n        if isinstance(status, str):\n            status = status.split(None, 1)[0]\n        if status == '404':\n            status = '200'")]},
+]
+
+MUTANTS += [
+    # ---- C03 -------------------------------------------------------------------------------
+    {"name": "c03-manage-workers-kills-newest", "prop": "C03", "checks": ["C03"],
+     "edits": [(AR, "            (pid, _) = workers.pop(0)\n            self.kill_worker(pid, signal.SIGTERM)", "            (pid, _) = workers.pop()\n            self.kill_worker(pid, signal.SIGTERM)")]},
+    {"name": "c03-reap-only-one-child", "prop": "C03", "checks": ["C03"],
+     "edits": [(AR, "                    worker.tmp.close()\n                    self.cfg.child_exit(self, worker)\n        except OSError as e:", "                    worker.tmp.close()\n                    self.cfg.child_exit(self, worker)\n                    break\n        except OSError as e:")]},
+    {"name": "c03-boot-error-not-special", "prop": "C03", "checks": ["C03"],
+     "edits": [(AR, "                    if exitcode == self.WORKER_BOOT_ERROR:", "                    if False:")]},
+    {"name": "c03-ttou-below-one", "prop": "C03", "checks": ["C03"],
+     "edits": [(AR, "        if self.num_workers <= 1:\n            return", "        if self.num_workers <= 0:\n            return")]},
+    {"name": "c03-spawn-one-too-many", "prop": "C03", "checks": ["C03"],
+     "edits": [(AR, "        for _ in range(self.num_workers - len(self.WORKERS)):", "        for _ in range(self.num_workers - len(self.WORKERS) + 1):")]},
+    {"name": "c03-esrch-does-not-forget-worker", "prop": "C03", "checks": ["C03"],
+     "edits": [(AR, "                try:\n                    worker = self.WORKERS.pop(pid)\n                    worker.tmp.close()\n                    self.cfg.worker_exit(self, worker)\n                    return", "                try:\n                    return")]},
+    {"name": "c03-hup-does-not-spawn-new", "prop": "C03", "checks": ["C03"],
+     "edits": [(AR, "        for _ in range(self.cfg.workers):\n            self.spawn_worker()\n\n        # manage workers\n        self.manage_workers()", "        # manage workers\n        self.manage_workers()")]},
+    {"name": "c03-app-load-error-exit-code-lost", "prop": "C03", "checks": ["C03"],
+     "edits": [(AR, "                        raise HaltServer(reason, self.APP_LOAD_ERROR)", "                        raise HaltServer(reason, 1)")]},
+    {"name": "c03-reap-pops-before-checking-exitcode-only-tracked", "prop": "C03", "checks": ["C03"],
+     "edits": [(AR, "                wpid, status = os.waitpid(-1, os.WNOHANG)\n                if not wpid:\n                    break", "                wpid, status = os.waitpid(-1, os.WNOHANG)\n                if not wpid or wpid not in self.WORKERS:\n                    break")]},
+    # ---- C11 (simulated part) ----------------------------------------------------------------
+    {"name": "c11-aborted-flag-never-set", "prop": "C11", "checks": ["C11"],
+     "edits": [(AR, "                worker.aborted = True\n", "")]},
+    {"name": "c11-timeout-halved-in-scan", "prop": "C11", "checks": ["C11"],
+     "edits": [(AR, "                if time.monotonic() - worker.tmp.last_update() <= self.timeout:", "                if time.monotonic() - worker.tmp.last_update() <= self.timeout / 2:")]},
+    {"name": "c11-scan-only-first-worker", "prop": "C11", "checks": ["C11"],
+     "edits": [(AR, "                self.kill_worker(pid, signal.SIGABRT)\n            else:\n                self.kill_worker(pid, signal.SIGKILL)", "                self.kill_worker(pid, signal.SIGABRT)\n            else:\n                self.kill_worker(pid, signal.SIGKILL)\n            break")]},
+    {"name": "c11-kill-immediately-no-abort", "prop": "C11", "checks": ["C11"],
+     "edits": [(AR, "            if not worker.aborted:\n                self.log.critical", "            if False:\n                self.log.critical")]},
+    {"name": "c11-timeout-zero-still-kills", "prop": "C11", "checks": ["C11"],
+     "edits": [(AR, "        if not self.timeout:\n            return\n        workers = list(self.WORKERS.items())", "        workers = list(self.WORKERS.items())")]},
+    {"name": "c11-scan-every-other-tick", "prop": "C11", "checks": ["C11"],
+     "edits": [(AR, "                    self.sleep()\n                    self.murder_workers()", "                    self.sleep()\n                    if int(time.time()) % 4 == 0:\n                        self.murder_workers()")]},
+]
